@@ -84,7 +84,7 @@ def writeBigBedZ (o : Opts) (z : Blobs) (autosql : List Nat) (fieldCount : Nat) 
       ((a.1 ++ [(size, a.2.2, zend)], a.2.1 ++ zdata ++ zidx, zend + zidx.length), z', acc.2.2.1 && ok', max acc.2.2.2 (maxLen secs0)))
     (([], [], zoomStart), z1, ok1, maxLen dataSecs0)
   let ((zoomHdrs, zoomBytes, _), zrest, ok, ubs) := zooms
-  let sms := input.map fun c => BSUM.ofSegs (SW.sweepAll 4294967295 (c.2.2.map fun x => (x.s, x.e)) [] []).1
+  let sms := input.map fun c => BSUM.ofSegs ((BZC.emitted 4294967295 (c.2.2.map fun x => (x.s, x.e)) []).map (·.1))   -- = (SW.sweepAll … [] []).1 (BZC.sweepAll_emitted), linear
   let t := match sms with
     | [] => (⟨0, 0, 0, 0, 0⟩ : BSUM.Sm)
     | s :: rest => rest.foldl BSUM.merge s
